@@ -35,7 +35,10 @@ type UCIScenario struct {
 	TTBytes int      `json:"tt_bytes,omitempty"`
 	Stubs   []StubGo `json:"stubs,omitempty"` // behaviour of the k-th stub search
 	Steps   []UStep  `json:"steps"`
-	Spsa    bool     `json:"-"`
+	// AutoGrant: the GUI reads every line at once (no output back-pressure);
+	// used where the instant at which the engine acts on a command matters.
+	AutoGrant bool `json:"auto_grant,omitempty"`
+	Spsa      bool `json:"-"`
 }
 
 // StubGo scripts one call of the stub search.
@@ -127,22 +130,22 @@ type uciWorld struct {
 	done chan struct{}
 	t0   time.Time
 
-	pipe         [][]byte
-	eofQueued    bool
-	eofSent      bool
-	partial      string // GUI-side bytes of the current unfinished line
-	rdPartial    string // reader-side bytes of the current unfinished line
-	anyInterrupt bool
-	stackBuf     []byte
-	needInspect  bool
-	stuck        bool
-	autoGrant    bool // every write is granted at once (C08 driver twins)
-	twinOf       *uciWorld
-	readyokOwed  int // isready lines handed to the reader minus readyok lines seen at the writer
-	pending      []byte
-	hasPend      bool
-	parked       bool
-	finished     bool
+	pipe        [][]byte
+	eofQueued   bool
+	eofSent     bool
+	partial     string // GUI-side bytes of the current unfinished line
+	rdPartial   string // reader-side bytes of the current unfinished line
+	selectorID  int
+	stackBuf    []byte
+	needInspect bool
+	stuck       bool
+	autoGrant   bool // every write is granted at once (C08 driver twins)
+	twinOf      *uciWorld
+	readyokOwed int // isready lines handed to the reader minus readyok lines seen at the writer
+	pending     []byte
+	hasPend     bool
+	parked      bool
+	finished    bool
 
 	// events raised by the driver's own goroutines (through the search seam)
 	// are buffered and merged into the history by the scheduler at the next
@@ -437,23 +440,37 @@ func (w *uciWorld) inspect() {
 		n = runtime.Stack(w.stackBuf, true)
 	}
 	buf := w.stackBuf
-	w.anyInterrupt = false
+	// The goroutine that multiplexes search end, timer and input during a
+	// search (the "selector") is recognised structurally, not by name: a
+	// goroutine inside handleGo that does not carry the search and has been
+	// seen waiting in a select. It is a hazard when it is alive, still inside
+	// handleGo, and not in its select. (Fallback for a selector never yet seen
+	// in its select: a closure of handleGo that does not carry the search.)
+	selectorAlive := false
 	for _, g := range strings.Split(string(buf[:n]), "\n\n") {
 		head, _, _ := strings.Cut(g, "\n")
 		if !strings.Contains(head, "synctest bubble") {
 			continue
 		}
-		switch {
-		case strings.Contains(g, ".handleGo.func"):
-			w.anyInterrupt = true
-			if !strings.Contains(head, "[select") {
-				w.hazard = true
-			}
-		case strings.Contains(g, ".readInput("):
-			if strings.Contains(head, "[chan send") {
-				w.readerPending = true
-			}
+		if strings.Contains(g, ".readInput(") && strings.Contains(head, "[chan send") {
+			w.readerPending = true
 		}
+		if !strings.Contains(g, ".handleGo") || strings.Contains(g, "wrapSearch).Go") {
+			continue
+		}
+		var id int
+		fmt.Sscanf(head, "goroutine %d ", &id)
+		switch {
+		case strings.Contains(head, "[select"):
+			w.selectorID = id
+			selectorAlive = true
+		case id == w.selectorID || strings.Contains(g, ".handleGo.func"):
+			w.hazard = true
+			selectorAlive = true
+		}
+	}
+	if !selectorAlive {
+		w.selectorID = 0
 	}
 	if !w.hazard && !w.readerPending {
 		w.needInspect = false
@@ -739,7 +756,7 @@ func RunUCIScenario(sc *UCIScenario, ch chooser, keepEvents bool) (out *UCIOutco
 // newUCIWorld starts a driver (with its search) inside the current bubble.
 func newUCIWorld(sc *UCIScenario) *uciWorld {
 	out := &UCIOutcome{Stats: map[string]int64{}}
-	w := &uciWorld{sc: sc, out: out, t0: time.Now(), errW: &bytes.Buffer{}}
+	w := &uciWorld{sc: sc, out: out, t0: time.Now(), errW: &bytes.Buffer{}, autoGrant: sc.AutoGrant}
 	w.rd = &simReader{ch: make(chan []byte)}
 	w.wr = &simWriter{offer: make(chan []byte), grant: make(chan struct{})}
 	w.co = &coop{toSched: make(chan struct{}), resume: make(chan struct{}), resumeN: make(chan int)}
@@ -845,6 +862,9 @@ func outLines(out *UCIOutcome) []string {
 		if e.Kind == "OUT" {
 			for _, l := range strings.Split(strings.TrimSuffix(e.Data, "\n"), "\n") {
 				if firstToken(l) == "info" {
+					if il := parseInfo(l); !(il.hasDepth || il.hasNodes || il.hasPV) {
+						continue
+					}
 					l = "info " + lineKey(l)
 				}
 				ls = append(ls, l)
